@@ -72,11 +72,20 @@ def main() -> int:
                   and (not names or any(p.name.startswith(n) for n in names)))
     bad = 0
     results = {}
+    # seeds of one property run one after another (they share evidence/replay file names); properties in parallel
+    groups: dict[str, list[Path]] = {}
+    for d in dirs:
+        groups.setdefault(d.name[:3], []).append(d)
+
+    def run_group(ds: list[Path]) -> list[tuple[str, str]]:
+        return [run_one(d, seed) for d in ds]
+
     with cf.ThreadPoolExecutor(jobs) as ex:
-        for name, res in ex.map(lambda d: run_one(d, seed), dirs):
-            print(f"{name:55s} {res}", flush=True)
-            bad += res.startswith(("MISSED", "harness"))
-            results[name] = {"result": res.replace("replay=replays/", "replay=")}
+        for group in ex.map(run_group, groups.values()):
+            for name, res in group:
+                print(f"{name:55s} {res}", flush=True)
+                bad += res.startswith(("MISSED", "harness"))
+                results[name] = {"result": res.replace("replay=replays/", "replay=")}
     if record:
         import json
         rp = base / "RESULTS.json"
